@@ -86,7 +86,7 @@ fn rewrite_reorderable_item(
 ) -> RewriteResult {
     match item.kind {
         ast::ItemKind::ExternCrate(..) => rewrite_extern_crate(context, item, shape),
-        ast::ItemKind::Mod(_, ident, _) => rewrite_mod(context, item, ident, shape),
+        ast::ItemKind::Mod(safety, ident, _) => rewrite_mod(context, item, safety, ident, shape),
         _ => Err(RewriteError::Unknown),
     }
 }
